@@ -537,11 +537,14 @@ func c05run(r *report.Run) {
 						// the same expression with the operands written as literals, and as locals of a function
 						// (different instruction windows: PUSH/CONST and LOCALGET instead of GLOBALGET)
 						if used <= 2 {
-							for _, mode := range []string{"literals", "locals", "hex", "octal", "binary"} {
+							for _, mode := range []string{"literals", "locals", "hex", "octal", "binary", "argument"} {
 								if mode != "locals" && !c05constSafe(e, env) {
 									continue
 								}
 								src2 := c05respell(j.src, env, names, mode)
+								if mode == "argument" { // the literal spelling as the argument of a call (instructions follow the expression)
+									src2 = "func wrap(v any) []any {\n\treturn []any{v}\n}\nr := wrap(" + c05respell(j.src, env, names, "literals") + ")\nr[0]\n"
+								}
 								if mode == "octal" {
 									src2 = c05multiline(src2) // and this spelling is written over several lines
 								}
